@@ -185,6 +185,37 @@ pub fn run(ctx: &Ctx, rep: &mut Report) {
         } else {
             world
         };
+        // every fourth stack: the user dictionaries carry the magic number of the second user-dictionary format (same
+        // layout as the third): the stack must load and answer every lookup like any other
+        let world = if !small && wi % 4 == 3 && !world.user_bytes.is_empty() && world.user_bytes.len() < 15 {
+            let mut w = world;
+            let v2: Vec<Vec<u8>> = w.user_bytes.iter().map(|b| {
+                let mut b = b.clone();
+                if b.len() >= 8 && b[..8] == 0xca9811756ff64fb0u64.to_le_bytes() {
+                    b[..8].copy_from_slice(&0x9fdeb5a90168d868u64.to_le_bytes());
+                }
+                b
+            }).collect();
+            let cfg = crate::env::config(&w.cfg_json, &w.res);
+            match guard(|| crate::env::load(&cfg, &w.sys_bytes, &v2, Place::Owned)) {
+                Ok(Ok(d)) => {
+                    w.dict = d;
+                    w.user_bytes = v2;
+                    rep.count("stacks_with_version_2_user_dictionaries", 1);
+                }
+                Ok(Err(e)) => {
+                    rep.violation("load_error", "from_cfg_storage", &format!("the stack loads with version-3 user dictionaries but not when they carry the version-2 magic number: {:?}", e), "", json!({"world_index": wi}));
+                    continue;
+                }
+                Err(pn) => {
+                    rep.violation("load_panic", &pn.site, &format!("user dictionaries with the version-2 magic number: {}", pn.msg), "", json!({"world_index": wi}));
+                    continue;
+                }
+            }
+            w
+        } else {
+            world
+        };
         rep.count("worlds", 1);
         {
             let mut per_key: std::collections::HashMap<&str, usize> = Default::default();
